@@ -7,6 +7,12 @@ EVERY newline list and EVERY position:
                             together with its index k — every earlier newline is ≤ pos — so the line
                             number k+1 is the number of the line containing `pos` (for a position that
                             is not itself a line break);
+  * `getErrPos_correct`   : for a strictly increasing newline list (`newlineList_sorted`: the driver's list
+                            always is) and a position before the last newline that is not itself a line
+                            break, `get_err_pos` returns (k+1, start, end) with start ≤ pos < end, end the
+                            first newline after pos and start = 0 or one past the previous newline: the
+                            reported line number, column base and line text are those of the line CONTAINING
+                            the position (`boundsFold_eq`: what the `get_bounds` loop computes);
   * `getNewlineBefore_total` : with at least one newline (the driver guarantees it by terminating
                             the text, `text_has_newline`) the look-up never aborts — for any position,
                             also past the end;
@@ -85,6 +91,17 @@ theorem getNewlineBefore_total (nl : List Nat) (h : nl ≠ []) (pos : Nat) : (ge
     | some v => rfl
     | none => exact absurd (List.getLast?_eq_none_iff.mp hl) h
 
+theorem mem_withOffsetsFrom (c : Char) : ∀ (l : List Char) (n : Nat), c ∈ l → ∃ i, (c, i) ∈ withOffsetsFrom n l := by
+  intro l
+  induction l with
+  | nil => intro n h; simp at h
+  | cons x xs ih =>
+    intro n h
+    rcases List.mem_cons.mp h with rfl | h'
+    · exact ⟨n, by simp [withOffsetsFrom]⟩
+    · obtain ⟨i, hi⟩ := ih (n + x.utf8Size) h'
+      exact ⟨i, by simp [withOffsetsFrom, hi]⟩
+
 /-- the driver's text always has a newline -/
 theorem text_has_newline (cs : List Char) : newlineList (ensureNewline cs) ≠ [] := by
   intro h
@@ -96,30 +113,56 @@ theorem text_has_newline (cs : List Char) : newlineList (ensureNewline cs) ≠ [
       obtain ⟨ys, hys⟩ := this
       rw [hys]; simp
     · simp
-  -- every newline character contributes an entry
-  have key : ∀ (l : List Char) (acc : List (Char × Nat)) (n : Nat), '\n' ∈ l →
-      ∃ i, ('\n', i) ∈ (l.foldl (fun (a : List (Char × Nat) × Nat) c => ((c, a.2) :: a.1, a.2 + c.utf8Size)) (acc, n)).1 := by
-    intro l
-    induction l with
-    | nil => intro _ _ h; simp at h
-    | cons c cs ih =>
-      intro acc n hm
-      simp only [List.foldl_cons]
-      rcases List.mem_cons.mp hm with rfl | hm'
-      · -- the entry ('\n', n) is pushed now and stays in the accumulator
-        have stays : ∀ (l : List Char) (acc : List (Char × Nat)) (n : Nat) (x : Char × Nat), x ∈ acc →
-            x ∈ (l.foldl (fun (a : List (Char × Nat) × Nat) c => ((c, a.2) :: a.1, a.2 + c.utf8Size)) (acc, n)).1 := by
-          intro l
-          induction l with
-          | nil => intro _ _ _ h; simpa using h
-          | cons d ds ihd => intro acc n x hx; simp only [List.foldl_cons]; exact ihd _ _ x (by simp [hx])
-        exact ⟨n, stays cs _ _ _ (by simp)⟩
-      · exact ih _ _ hm'
-  obtain ⟨i, hi⟩ := key (ensureNewline cs) [] 0 hmem
+  obtain ⟨i, hi⟩ := mem_withOffsetsFrom '\n' (ensureNewline cs) 0 hmem
   have : i ∈ newlineList (ensureNewline cs) := by
     simp only [newlineList, withOffsets, List.mem_filterMap]
-    exact ⟨('\n', i), by simpa using hi, by simp⟩
+    exact ⟨('\n', i), hi, by simp⟩
   rw [h] at this; simp at this
+
+/-- offsets are strictly increasing (every character occupies at least one byte) -/
+theorem withOffsetsFrom_lb : ∀ (l : List Char) (n : Nat) (p : Char × Nat), p ∈ withOffsetsFrom n l → n ≤ p.2 := by
+  intro l
+  induction l with
+  | nil => intro n p h; simp [withOffsetsFrom] at h
+  | cons x xs ih =>
+    intro n p h
+    simp only [withOffsetsFrom, List.mem_cons] at h
+    rcases h with rfl | h
+    · exact Nat.le_refl _
+    · have := ih _ p h; omega
+
+theorem withOffsetsFrom_sorted : ∀ (l : List Char) (n : Nat), (withOffsetsFrom n l).Pairwise (fun a b => a.2 < b.2) := by
+  intro l
+  induction l with
+  | nil => intro n; simp [withOffsetsFrom]
+  | cons x xs ih =>
+    intro n
+    simp only [withOffsetsFrom, List.pairwise_cons]
+    refine ⟨fun p hp => ?_, ih _⟩
+    have := withOffsetsFrom_lb xs _ p hp
+    have hpos : 0 < x.utf8Size := Char.utf8Size_pos x
+    omega
+
+/-- the driver's newline list is strictly increasing: the hypothesis of `getErrPos_correct` holds
+    for every text -/
+theorem newlineList_sorted (cs : List Char) : (newlineList cs).Pairwise (· < ·) := by
+  unfold newlineList withOffsets
+  have := withOffsetsFrom_sorted cs 0
+  generalize withOffsetsFrom 0 cs = l at this
+  induction l with
+  | nil => simp
+  | cons p ps ih =>
+    obtain ⟨hp, hps⟩ := List.pairwise_cons.mp this
+    simp only [List.filterMap_cons]
+    split
+    · exact ih hps
+    · rename_i v hv
+      refine List.pairwise_cons.mpr ⟨fun w hw => ?_, ih hps⟩
+      obtain ⟨q, hq, hqw⟩ := List.mem_filterMap.mp hw
+      have h1 := hp q hq
+      have e1 : v = p.2 := by split at hv <;> simp_all
+      have e2 : w = q.2 := by split at hqw <;> simp_all
+      omega
 
 /-! ### the source mapper -/
 open Emu8086.Asm in
@@ -133,5 +176,125 @@ open Emu8086.Asm in
 theorem mapper_locked (s : St) (pos : Nat) (h : s.lock ≠ 0) :
     addEntry pos s = .ok (⟨⟩, { s with smap := s.smap.push s.sourceLast }) := by
   simp [addEntry_apply, h]
+
+end Emu8086.Props.C16
+
+/-! ### the bounds of the reported line -/
+namespace Emu8086.Props.C16
+open Emu8086 Emu8086.Driver
+
+/-- the loop of `get_bounds`, started at index `s` with candidate `i0` -/
+def boundsFold (pos : Nat) (l : List Nat) (s : Nat) (i0 : Nat) : Nat :=
+  ((l.zipIdx s).foldl (fun (acc : Nat × Bool) (p : Nat × Nat) =>
+      if acc.2 then acc else if p.1 > pos then (acc.1, true) else (p.2, false)) (i0, false)).1
+
+theorem fold_stopped (pos : Nat) (l : List (Nat × Nat)) (i : Nat) :
+    (l.foldl (fun (acc : Nat × Bool) (p : Nat × Nat) =>
+      if acc.2 then acc else if p.1 > pos then (acc.1, true) else (p.2, false)) (i, true)) = (i, true) := by
+  induction l with
+  | nil => rfl
+  | cons x xs ih => simp only [List.foldl_cons, if_true]; exact ih
+
+/-- the loop leaves the index of the last element of the maximal prefix of elements ≤ pos
+    (the start candidate if that prefix is empty) -/
+theorem boundsFold_eq (pos : Nat) : ∀ (l : List Nat) (s i0 : Nat),
+    boundsFold pos l s i0 = if (l.takeWhile (· ≤ pos)).length = 0 then i0 else s + (l.takeWhile (· ≤ pos)).length - 1 := by
+  intro l
+  induction l with
+  | nil => intro s i0; simp [boundsFold]
+  | cons x xs ih =>
+    intro s i0
+    unfold boundsFold
+    simp only [List.zipIdx_cons, List.foldl_cons, Bool.false_eq_true, if_false]
+    by_cases hx : x > pos
+    · have hx' : ¬ x ≤ pos := by omega
+      simp only [hx, if_true, fold_stopped, List.takeWhile_cons, hx', decide_false, Bool.false_eq_true, if_false, List.length_nil]
+    · have hx' : x ≤ pos := by omega
+      simp only [hx, if_false, List.takeWhile_cons, hx', decide_true, if_true, List.length_cons]
+      have := ih (s + 1) s
+      unfold boundsFold at this
+      rw [this]
+      by_cases hz : (List.takeWhile (fun x => decide (x ≤ pos)) xs).length = 0
+      · simp [hz]
+      · simp only [hz, if_false]
+        have : ¬ ((List.takeWhile (fun x => decide (x ≤ pos)) xs).length + 1 = 0) := by omega
+        simp only [this, if_false]; omega
+
+theorem getBounds_eq (nl : List Nat) (pos : Nat) :
+    getBounds nl pos =
+      (let i := boundsFold pos nl 0 0
+       if i == 0 then nl.head?.map fun v => (0, v)
+       else match nl[i - 1]?, nl[i]? with
+         | some a, some b => some (a + 1, b)
+         | _, _ => none) := rfl
+
+/-- strictly increasing list: the elements ≤ the k-th are exactly the first k+1 -/
+theorem takeWhile_sorted (l : List Nat) (hs : l.Pairwise (· < ·)) (k : Nat) (v : Nat) (hk : l[k]? = some v) :
+    (l.takeWhile (· ≤ v)).length = k + 1 := by
+  induction l generalizing k with
+  | nil => simp at hk
+  | cons x xs ih =>
+    obtain ⟨hx, hxs⟩ := List.pairwise_cons.mp hs
+    cases k with
+    | zero =>
+      simp at hk; subst hk
+      simp only [List.takeWhile_cons, Nat.le_refl, decide_true, if_true, List.length_cons]
+      -- every later element is greater
+      have : xs.takeWhile (· ≤ x) = [] := by
+        cases xs with
+        | nil => rfl
+        | cons y ys =>
+          have := hx y (by simp)
+          simp only [List.takeWhile_cons]
+          have : ¬ y ≤ x := by omega
+          simp [this]
+      simp [this]
+    | succ k =>
+      have hk' : xs[k]? = some v := by simpa using hk
+      have hv : x < v := hx v (List.mem_of_getElem? hk')
+      have hle : x ≤ v := by omega
+      simp only [List.takeWhile_cons, hle, decide_true, if_true, List.length_cons]
+      rw [ih hxs k hk']
+
+/-- **The reported line contains the position.**  For a strictly increasing newline list and a
+    position before the last newline that is not itself a newline: `get_err_pos` returns the 1-based
+    number k+1 of the first newline after the position, and the bounds [start, end) with
+    start ≤ pos < end, where end is that newline and start is 0 or one past the previous newline. -/
+theorem getErrPos_correct (nl : List Nat) (hs : nl.Pairwise (· < ·)) (pos : Nat)
+    (hex : ∃ w ∈ nl, w > pos) (hnn : pos ∉ nl) :
+    ∃ k v st, getErrPos nl pos = some (k + 1, st, v) ∧ nl[k]? = some v ∧ st ≤ pos ∧ pos < v
+      ∧ (k = 0 → st = 0) ∧ (∀ a, k ≠ 0 → nl[k - 1]? = some a → st = a + 1) := by
+  have htot : (getNewlineBefore nl pos).isSome = true :=
+    getNewlineBefore_total nl (by obtain ⟨w, hw, _⟩ := hex; intro h; rw [h] at hw; simp at hw) pos
+  obtain ⟨⟨k, v⟩, hkv⟩ := Option.isSome_iff_exists.mp htot
+  obtain ⟨hgt, hget, hbefore⟩ := newline_before_spec nl pos k v hex hkv
+  have hlen := takeWhile_sorted nl hs k v hget
+  have hi : boundsFold v nl 0 0 = k := by
+    rw [boundsFold_eq]; simp [hlen]
+  unfold getErrPos
+  rw [hkv]
+  simp only [getBounds_eq, hi]
+  cases k with
+  | zero =>
+    have hh : nl.head? = some v := by
+      cases nl with
+      | nil => simp at hget
+      | cons x xs => simpa using hget
+    refine ⟨0, v, 0, by simp [hh], hget, Nat.zero_le _, hgt, fun _ => rfl, fun a h => absurd rfl h⟩
+  | succ k =>
+    cases hprev : nl[k]? with
+    | none =>
+      exfalso
+      have : k + 1 < nl.length := by
+        have := List.getElem?_eq_some_iff.mp hget; exact this.1
+      have : nl[k]? ≠ none := by
+        rw [List.getElem?_eq_getElem (by omega)]; simp
+      exact this hprev
+    | some a =>
+      have hle : a ≤ pos := hbefore k (by omega) a hprev
+      have hne : a ≠ pos := fun e => hnn (e ▸ List.mem_of_getElem? hprev)
+      refine ⟨k + 1, v, a + 1, ?_, hget, by omega, hgt, fun h => by omega, fun a' _ ha' => ?_⟩
+      · simp [hprev, hget]
+      · simp only [Nat.add_sub_cancel] at ha'; rw [hprev] at ha'; cases ha'; rfl
 
 end Emu8086.Props.C16
